@@ -52,8 +52,32 @@ fn case(inp: &[u64]) -> Result<(), String> {
     }
 }
 
+/// Take of a rewindable lender; input: [nlines, take_n, consume_first, rewinds, seed]
+fn case_take(inp: &[u64]) -> Result<(), String> {
+    let (nlines, take_n, consume, rewinds, seed) = (inp[0] as usize, inp[1] as usize, inp[2] as usize, inp[3] as usize, inp[4]);
+    let (bytes, lines) = text(nlines, false, true, seed);
+    let expect: Vec<String> = lines.iter().take(take_n).cloned().collect();
+    let mut l = LineLender::new(BufReader::new(Cursor::new(bytes))).take(take_n);
+    let first = drain(&mut l, consume)?;
+    if first[..] != expect[..first.len().min(expect.len())] || first.len() != consume.min(expect.len()) { return Err(format!("first pass yielded {:?}", first)); }
+    for r in 0..rewinds {
+        l = l.rewind().map_err(|e| format!("rewind error: {}", e))?;
+        let all = drain(&mut l, usize::MAX)?;
+        if all != expect { return Err(format!("take({}) after consuming {} items: pass after rewind {} yielded {} items, the first pass has {}", take_n, consume.min(expect.len()), r + 1, all.len(), expect.len())); }
+    }
+    Ok(())
+}
+
 pub fn run(case_name: &str, ctx: &mut Ctx, one: Option<&str>, rng: &mut Rng, budget: usize) {
-    let _ = case_name;
+    if case_name == "lenders_take" {
+        if let Some(s) = one { let inp = parse_list(s); ctx.trial(s, false, || case_take(&inp)); return; }
+        for nlines in [0u64, 1, 5, 20] { for take_n in [0u64, 1, 3, 30] { for consume in [0u64, 1, 2, 100] {
+            let v = vec![nlines, take_n, consume, 2, 11 + nlines]; let s = fmt_list(&v); ctx.trial(&s, false, || case_take(&v));
+        } } }
+        for _ in 0..budget.min(200) { let v = vec![rng.below(50), rng.below(60), rng.below(70), 1 + rng.below(3), rng.next()];
+            let s = fmt_list(&v); ctx.trial(&s, false, || case_take(&v)); }
+        return;
+    }
     if let Some(s) = one { let inp = parse_list(s); ctx.trial(s, false, || case(&inp)); return; }
     for kind in 0..3u64 { for nlines in [0u64, 1, 2, 5, 40] { for consume in [0u64, 1, 3, 100] { for flags in 0..4u64 {
         let v = vec![kind, nlines, consume, 2, flags, 7 + nlines]; let s = fmt_list(&v); ctx.trial(&s, false, || case(&v));
